@@ -140,16 +140,19 @@ struct Case {
     trig: bool,
 }
 
-fn config_of(c: &Case) -> TurtleConfig {
+/// None = the configuration is refused (with_indentation panics on a string that is not white space)
+fn config_of(c: &Case) -> Option<TurtleConfig> {
     let pm: Vec<PrefixMapPair> = c.prefixes.iter()
         .map(|(p, n)| (Prefix::new_unchecked(p.clone().into_boxed_str()), Iri::new_unchecked(n.clone().into_boxed_str())))
         .collect();
-    TurtleConfig::new().with_pretty(c.pretty).with_own_prefix_map(pm).with_indentation(c.indent.clone())
+    let (pretty, indent) = (c.pretty, c.indent.clone());
+    std::panic::catch_unwind(move || TurtleConfig::new().with_pretty(pretty).with_own_prefix_map(pm).with_indentation(indent)).ok()
 }
+const REFUSED: &str = "configuration refused";
 
 /// what the implementation writes (Err = it panicked or returned an error)
 fn serialise(c: &Case) -> Result<String, String> {
-    let cfg = config_of(c);
+    let Some(cfg) = config_of(c) else { return Err(REFUSED.into()) };
     let quads = c.quads.clone();
     let trig = c.trig;
     let r = std::panic::catch_unwind(move || -> Result<String, String> {
@@ -209,7 +212,7 @@ fn brute_iso(a: &BTreeSet<Q>, bb: &BTreeSet<Q>) -> Option<bool> {
 
 /// the property on one case: Ok(output text) or Err(description)
 fn oracle(c: &Case) -> Result<String, String> {
-    let text = serialise(c)?;
+    let text = match serialise(c) { Err(e) if e == REFUSED => return Ok(REFUSED.into()), x => x? };
     let back = match parse_back(c.trig, &text) {
         Ok(v) => v,
         Err(e) => return Err(format!("the output does not parse ({e}); output:\n{text}")),
@@ -443,7 +446,8 @@ fn gen_prefixes(r: &mut Rng) -> Vec<(String, String)> {
     }
 }
 fn gen_indent(r: &mut Rng) -> String {
-    if r.chance(1, 2) { "  ".into() } else { r.ps(&["", " ", "\t", "    ", "\n", " \t ", "\r\n", "\r", "\t\t", "\u{c}", "\u{a0}", "\u{2003}"]).to_string() }
+    // the last three are white space for Rust but not for the Turtle grammar
+    if r.chance(1, 2) { "  ".into() } else if r.chance(1, 12) { r.ps(&["\u{c}", "\u{a0}", "\u{2003}"]).to_string() } else { r.ps(&["", " ", "\t", "    ", "\n", " \t ", "\r\n", "\r", "\t\t"]).to_string() }
 }
 
 fn gen_shape_case(r: Rng) -> Case {
@@ -558,6 +562,7 @@ fn witnesses() -> Vec<(&'static str, Case)> {
 
 fn main() {
     let a = parse_args();
+    std::panic::set_hook(Box::new(|_| {}));   // panics of the implementation are caught and reported by the oracle
     if a.rest.iter().any(|x| x == "--witness") {
         let mut bad = 0;
         for (name, c) in witnesses() {
@@ -613,8 +618,10 @@ non-trivial = the dataset has a blank node, a quoted triple, a list, a numeric/b
         if sum.samples.len() < 6 && nontrivial && idx % 3 == 0 { sum.samples.push(format!("case {idx}: {desc}")); }
         sum.evaluations += 1;
         // Coq side
+        if matches!(&res, Ok(t) if t == REFUSED) { sum.bump("indentation-refused"); }
         if let Ok(text) = &res {
-            if stream < 6 && c.pretty {
+            if text == REFUSED {
+            } else if stream < 6 && c.pretty {
                 cases.push((idx, coq_plan_case(&c, text)));
             } else if stream == 6 {
                 if let T::Lit(lex, dt) = &c.quads[0].1[2] {
